@@ -163,7 +163,7 @@ fn f4_signature(want: &Tbl, got: &Tbl) -> bool {
 }
 
 fn prop(t: &mut Tape, st: &mut Stats) -> Result<(), Failure> {
-    match t.below(16) {
+    match t.below(17) {
         0 => check_value("Scalars", &g_scalars(t), st),
         1 => check_value("Opts", &g_opts(t), st),
         2 | 3 => check_value("Seqs", &g_seqs(t), st),
@@ -176,13 +176,15 @@ fn prop(t: &mut Tape, st: &mut Stats) -> Result<(), Failure> {
         }
         9 => check_value("BTreeMap<String,E>", &g_map(t, 4, g_e), st),
         10 => check_value("BTreeMap<String,Vec<BTreeMap<String,E>>>", &g_map(t, 3, |t| g_vec(t, 3, |t| g_map(t, 2, g_e))), st),
-        11 => {
+        11 | 15 => {
             // unsupported: None / unit in a sequence, None as map value
             // (a None *map value* is treated by every serializer like an absent optional field and
             // is not among the documented error shapes; it is outside the generated family)
-            match t.below(2) {
+            match t.below(5) {
                 0 => check_value("BadNoneInSeq", &BadNoneInSeq { a: g_vec(t, 4, |t| g_opt(t, g_i32)) }, st),
-                _ => check_value("BadUnitInSeq", &BadUnitInSeq { a: vec![(); t.small(3)] }, st),
+                1 => check_value("BadUnitInSeq", &BadUnitInSeq { a: vec![(); t.small(3)] }, st),
+                2 | 3 => check_value("BadCtx", &g_bad_ctx(t), st),
+                _ => check_value("BTreeMap<String,BadCtx>", &g_map(t, 2, g_bad_ctx), st),
             }
         }
         12 => {
@@ -242,7 +244,7 @@ pub fn run(args: Args) -> ! {
     }
     let run = run_tape("C07.values", &prop, 1500, args.tier.pick(60_000, 1_500_000), args.seed, workers());
     finish_run(&mut rep, "values", run);
-    for c in ["type.Scalars", "type.Opts", "type.Seqs", "type.Maps", "type.Dates", "type.Nested", "type.BadNoneInSeq", "type.BadIntKey", "type.BadU64", "type.root E", "unsupported-rejected"] {
+    for c in ["type.Scalars", "type.Opts", "type.Seqs", "type.Maps", "type.Dates", "type.Nested", "type.BadNoneInSeq", "type.BadCtx", "type.BadIntKey", "type.BadU64", "type.root E", "unsupported-rejected"] {
         rep.require_class(c);
     }
     rep.finish()
